@@ -2,10 +2,17 @@
 //
 // Every decoder entry point (serix Decode for ~55 registered destination types, JSONDecode /
 // MapDecode, the Deserializer primitives, the stream Read* helpers, typeutils, the ds
-// containers' Decode) is called on hostile inputs derived from valid encodings.  Calls run
-// in child processes (GOMAXPROCS=1, ulimit -v), each case is marked before the call so a
-// process death is attributed; per call: recover, returned (n, err), runtime.MemStats
-// TotalAlloc delta, and the number of element-decoder invocations are checked.
+// containers' Decode) is called on hostile inputs derived from valid encodings.  The parent
+// generates the case list of a batch (fixed by seed + tier) and streams it to a child
+// process (GOMAXPROCS=1, ulimit -v 1 GiB); the child marks each case before the call, so a
+// process death (out of memory, stack overflow) is attributed to the marked case and the
+// parent restarts a child behind it.  Per call: recover, returned (n, err),
+// runtime.MemStats.TotalAlloc delta (confirmed and attributed by an exact heap profile of
+// a re-run when above the bound), and the number of element-decoder invocations.
+//
+// Debugging aids (never needed for a verdict): C02_ONLY=<batch prefix> (partial run,
+// reported INCONCLUSIVE), C02_TIMES=1 (per-batch wall time on stderr),
+// C02_DEBUG=<file> with --replay (outcome + allocation profile of the replayed case).
 package main
 
 import (
